@@ -564,6 +564,9 @@ const fn mul(a: u64, b: u64) -> u64 {
 #[inline(always)]
 #[allow(clippy::many_single_char_names)]
 fn inv(x: u64) -> u64 {
+    // internal values are in the range [0, 2M), so zero is represented both by 0 and by M; the
+    // loop below does not terminate for M
+    let x = normalize(x);
     if x == 0 {
         return 0;
     };
